@@ -241,6 +241,9 @@ def _variant_objects(seed):
     R('patdesc-unicode', pattern_descriptors={'name': ['äpfel', 'bär', 'c', 'd']})
     R('patdesc-float', pattern_descriptors={'x': [0.5, 1.5, 2.5, 3.5]})
     R('one-rdm', dissimilarities=d[:1].copy(), rdm_descriptors={'sess': [1]})
+    # array-valued descriptors of size zero (an empty exclusion list, an empty table) are arrays, not None
+    R('desc-empty-arrays', descriptors={'excluded': np.array([], dtype=int), 'bad': np.zeros((0, 2)), 'subj': 's1'})
+    R('desc-scalar-arrays', descriptors={'one': np.array([7]), 'zero': np.array([0.0]), 'm11': np.array([[1.5]])})
 
     def D(key, temporal=False, **kw):
         base = dict(measurements=(np.round(rng_for(seed, 'c16t').uniform(size=(3, 2, 2)), 3) if temporal else m.copy()),
@@ -254,6 +257,7 @@ def _variant_objects(seed):
     D('plain')
     D('nan', measurements=np.array([[1.0, np.nan], [np.inf, 2.0], [0.0, -1.0]]))
     D('desc-matrix', descriptors={'noise': prec.copy()})
+    D('desc-empty-arrays', descriptors={'excluded': np.array([], dtype=int), 'bad': np.zeros((0, 2))})
     D('obs-str-ndarray', obs_descriptors={'conds': np.array(['a', 'b', 'a']), 'run': np.array([1, 1, 2])})
     D('unicode', obs_descriptors={'conds': ['ä', 'b', 'ä']})
     D('temporal', temporal=True)
@@ -325,7 +329,39 @@ def _result_objects(seed):
         ms = [M.ModelFixed('a', RDMs(np.round(g.uniform(0.5, 3, size=(1, 6)), 3), pattern_descriptors={'name': list(nm)})),
               M.ModelFixed('b', RDMs(np.round(g.uniform(0.5, 3, size=(1, 6)), 3), pattern_descriptors={'name': list(nm)}))]
         return I.eval_fixed(ms, d)
-    return [('result:fixed', 'result', lambda: I.eval_fixed(models(), data(), theta=[None, np.array([1.0, 0.5])])),
+    def shaped(routine, shape):
+        # every evaluation routine on data with more RDMs than conditions and vice versa: which of
+        # n_rdm / n_pattern enters the stored corrections depends on the routine (cv_method)
+        n_r, n_c = (8, 4) if shape == 'wide' else (3, 6)
+        L = n_c * (n_c - 1) // 2
+
+        def make():
+            g = rng_for(seed, 'c16shaped', routine, shape)
+            nm = ['q%d' % i for i in range(n_c)]
+            d = RDMs(np.round(g.uniform(0.5, 3, size=(n_r, L)), 3), pattern_descriptors={'name': list(nm)},
+                     rdm_descriptors={'subj': list(range(n_r))})
+            ms = [M.ModelFixed(k, RDMs(np.round(g.uniform(0.5, 3, size=(1, L)), 3), pattern_descriptors={'name': list(nm)}))
+                  for k in ('a', 'b')]
+            st = np.random.get_state()
+            np.random.seed(11)
+            try:
+                with np.errstate(all='ignore'):
+                    if routine == 'eval_fixed':
+                        return I.eval_fixed(ms, d)
+                    if routine in ('eval_bootstrap', 'eval_bootstrap_rdm', 'eval_bootstrap_pattern'):
+                        return getattr(I, routine)(ms, d, N=6)
+                    if routine == 'eval_dual_bootstrap':
+                        return I.eval_dual_bootstrap(ms, d, N=6, k_pattern=1, k_rdm=1)
+                    if routine == 'bootstrap_crossval':
+                        return I.bootstrap_crossval(ms, d, N=6, k_pattern=1, k_rdm=2)
+                    raise ValueError(routine)
+            finally:
+                np.random.set_state(st)
+        return make
+    shaped_items = [('result:%s,%s' % (r, sh), 'result', shaped(r, sh))
+                    for r in ('eval_fixed', 'eval_bootstrap', 'eval_bootstrap_rdm', 'eval_bootstrap_pattern',
+                              'eval_dual_bootstrap', 'bootstrap_crossval') for sh in ('wide', 'tall')]
+    return shaped_items + [('result:fixed', 'result', lambda: I.eval_fixed(models(), data(), theta=[None, np.array([1.0, 0.5])])),
             ('result:fixed-12-models', 'result', many),
             ('result:fixed-more-rdms-than-conditions', 'result', wide),
             ('result:bootstrap_rdm', 'result', boot),
